@@ -17,8 +17,9 @@ Everything is written over core notation classes + `Transc`, so that the same te
 (driver), at the error-tracking pair type of the driver, and is proved at `ℝ` (Props/C01.lean).
 No Mathlib.
 
-`Manly` is modelled after the repaired branch test `abs(lam) > EPS` (fix commit recorded in
-known_findings.d/C01.json); the pinned code tested `abs(lam-EPS) > 0`.
+`Manly` is modelled after the repaired branch test `abs(lam) > EPS` and `Reciprocal.backward` after the repaired
+guard `y < 0` (fix commits recorded in known_findings.d/C01.json); the pinned code tested `abs(lam-EPS) > 0` and
+`y < -mininu`.
 -/
 import HydroVerif.Num
 namespace HydroVerif.C01
@@ -327,8 +328,8 @@ def fwd (p : Params α) (x : α) : α := -1 / (p.nu + x)
 def bwd (p : Params α) (y : α) : α := -1 / y - p.nu
 def jac (p : Params α) (x : α) : α := 1 / ((p.nu + x) * (p.nu + x))
 def forward (p : Params α) (x : α) : Option α := guard (decide (-p.nu < x)) (fwd p x)
-/-- the guard of the real code is `y < -mininu` (not `y < 0`) -/
-def backward (p : Params α) (y : α) : Option α := guard (decide (y < -p.mininu)) (bwd p y)
+/-- the guard is `y < 0`, the whole image of `forward` (repaired; the pinned code tested `y < -mininu`) -/
+def backward (p : Params α) (y : α) : Option α := guard (decide (y < 0)) (bwd p y)
 def jacobian (p : Params α) (x : α) : Option α := guard (decide (-p.nu < x)) (jac p x)
 end Reciprocal
 
